@@ -329,9 +329,14 @@ def monitor(ck, sc, r):
     nparts = sc["partitions"]
     tr = r["trace"]
 
+    per_part = {}
+
     def viol(what, p, extra=None, sig=None):
         nonlocal bad
         bad += 1
+        per_part[p] = per_part.get(p, 0) + 1
+        if per_part[p] > 3:          # the first few per partition are enough for a replay
+            return
         rp = {"scenario": sc, "partition": p, "what": what}
         if extra:
             rp.update(extra)
